@@ -14,7 +14,7 @@ Require Import String.
 Require Import Arith Lia List Bool ZArith QArith Qcanon.
 From TK Require Import Mat_Sums Mat_Core Mat_Qc Mat_EigSelect EigSelect Mat_EigSelect_Tie
                        Proj_Model Proj_Spec Proj_Proof
-                       Pca_Model Pca_Spec Pca_Proof Pca_Proof_Qc Spectral_KyFan Pca_Proof_Opt.
+                       Pca_Model Pca_Spec Pca_Proof Pca_Proof_Qc Spectral_KyFan Pca_Proof_Opt Pca_Proof_Select.
 Import ListNotations.
 Local Open Scope nat_scope.
 
@@ -28,7 +28,7 @@ Print Assumptions C06_cov_is_covariance.
 
 Theorem C06_cov_is_covariance_Qc :
   forall (N : nat) (X : mat Qc), N <> 0 -> forall i j, pca_matrix N X i j = cov_spec N X i j.
-Proof. intros N X HN. apply (@cov_is_covariance Qc QcOps QcField). apply Qc_of_nat_neq0. exact HN. Qed.
+Proof. exact cov_is_covariance_Qc. Qed.
 Print Assumptions C06_cov_is_covariance_Qc.
 
 Example C06_cov_nonvacuous : @of_nat Qc _ 4 <> 0%F.
@@ -41,9 +41,7 @@ Theorem C06_cov_seen_by_solvers :
     two <> 0%F -> of_nat N <> 0%F ->
     (forall i j, seen_dense (pca_matrix N X) i j = cov_spec N X i j) /\
     (forall i j, seen_randomized (pca_matrix N X) i j = cov_spec N X i j).
-Proof.
-  intros F Fo Ff N X H2 HN. split; [exact (cov_seen_dense N X H2 HN)|exact (cov_seen_randomized N X HN)].
-Qed.
+Proof. exact @cov_seen_by_solvers. Qed.
 Print Assumptions C06_cov_seen_by_solvers.
 
 Example C06_cov_seen_nonvacuous : @two Qc _ <> 0%F /\ @of_nat Qc _ 2 <> 0%F.
@@ -125,10 +123,10 @@ Definition ex6_V : mat Qc := mof [[qfrac (-4) 5; qfrac 3 5]; [qfrac 3 5; qfrac 4
 Definition ex6_Lam : vec Qc := vof [qfrac 1 2; qz 2].
 Definition ex6_Q : mat Qc := mof [[qz 1]; [qz 0]].
 
-Lemma ex6_full : full_contract 2 (cov_spec 4 (mof ex6_X)) ex6_V ex6_Lam.
+Example ex6_full : full_contract 2 (cov_spec 4 (mof ex6_X)) ex6_V ex6_Lam.
 Proof. repeat split; apply meq_by_compute; vm_compute; reflexivity. Qed.
 
-Lemma ex6_ascending : ascending 2 ex6_Lam.
+Example ex6_ascending : ascending 2 ex6_Lam.
 Proof.
   intros a b Hab Hb. destruct a as [|[|a]]; destruct b as [|[|b]]; try lia;
     unfold fle; cbn [QcOrdered]; unfold Qcle; vm_compute; discriminate.
@@ -162,12 +160,7 @@ Theorem C06_pca_from_full_decomposition :
     let lam := select_vals Lam (D - d, d) in
     eig_contract D d (cov_spec N X) P lam /\
     uncorrelated N d (pca_embedding N D X P) lam.
-Proof.
-  intros F Fo Ff N D d X V Lam HN Hd Hfull P lam.
-  assert (Hc : eig_contract D d (cov_spec N X) P lam)
-    by (apply (@select_contract F Fo Ff D d (D - d)); [lia|exact Hfull]).
-  split; [exact Hc|]. exact (@pca_uncorrelated F Fo Ff N D d X P lam HN Hc).
-Qed.
+Proof. exact @pca_from_full_decomposition. Qed.
 Print Assumptions C06_pca_from_full_decomposition.
 
 Example C06_pca_from_full_nonvacuous :
@@ -212,6 +205,38 @@ Proof.
   split; apply Qc_is_canon; vm_compute; reflexivity.
 Qed.
 
+(* 9b. the dense path END TO END over the generated selection table: for every `largest` dense
+       site of the tree being checked, covariance -> any full ascending orthonormal decomposition
+       -> the site's own slice expressions -> contract, uncorrelated embedding, optimal and equal
+       to the sum of the selected eigenvalues *)
+Theorem C06_pca_dense_end_to_end :
+  forall (F : Type) (Fo : FieldOps F) (Ff : IsField F) (Fle : OrderedField F) b,
+    In b eig_table -> b_largest b = true -> b_base b = BaseN ->
+    forall (N D d : nat) (X V : mat F) (Lam : vec F),
+      of_nat N <> 0%F -> d <= D ->
+      full_contract D (cov_spec N X) V Lam ->
+      ascending D Lam ->
+      exists vc vv,
+        eval_ops d 0 D (b_cols b) = Some vc /\ eval_ops d 0 D (b_vals b) = Some vv /\
+        let P := select_cols V vc in
+        let lam := select_vals Lam vv in
+        eig_contract D d (cov_spec N X) P lam /\
+        uncorrelated N d (pca_embedding N D X P) lam /\
+        (forall Q, meq d d (mmul D (mtrans Q) Q) mI ->
+           fle (retained D d (cov_spec N X) Q) (retained D d (cov_spec N X) P)) /\
+        retained D d (cov_spec N X) P = sumn d lam.
+Proof. exact @pca_dense_end_to_end. Qed.
+Print Assumptions C06_pca_dense_end_to_end.
+
+Example C06_pca_dense_end_to_end_nonvacuous :
+  (exists b, In b eig_table /\ b_largest b = true /\ b_base b = BaseN) /\
+  @of_nat Qc _ 4 <> 0%F /\ 1 <= 2 /\
+  full_contract 2 (cov_spec 4 (mof ex6_X)) ex6_V ex6_Lam /\ ascending 2 ex6_Lam.
+Proof.
+  split; [eexists; split; [left; reflexivity|split; reflexivity]|].
+  split; [apply Qc_of_nat_neq0; lia|]. split; [lia|]. split; [exact ex6_full|exact ex6_ascending].
+Qed.
+
 (* Ky Fan itself, both directions and attainment, every n, d, every ordered field *)
 Theorem C06_ky_fan :
   forall (F : Type) (Fo : FieldOps F) (Ff : IsField F) (Fle : OrderedField F)
@@ -225,12 +250,7 @@ Theorem C06_ky_fan :
     fle (sumn d lam) (quad n d M Q) /\
     fle (quad n d M Q) (sumn d (fun c => lam (n - d + c))) /\
     quad n d M (fun i c => V i (n - d + c)) = sumn d (fun c => lam (n - d + c)).
-Proof.
-  intros F Fo Ff Fle n d M V Q lam Hd H1 H2 H3 H4 H5. split; [|split].
-  - exact (ky_fan_min n d M V Q lam Hd H1 H2 H3 H4 H5).
-  - exact (ky_fan_max n d M V Q lam Hd H1 H2 H3 H4 H5).
-  - apply (ky_fan_attained n d (n - d) M V lam); [lia|assumption|assumption].
-Qed.
+Proof. exact @ky_fan. Qed.
 Print Assumptions C06_ky_fan.
 
 Example C06_ky_fan_nonvacuous :
@@ -274,11 +294,7 @@ Theorem C06_decisions_sound :
   (forall N D (Xs C : list (list Qc)), N <> 0 -> wf_mat N D Xs -> pca_matrix_exec D Xs = POk C ->
      cov_seen_dense_b N D (Q2Qc 0) Xs C = Some true /\
      cov_seen_randomized_b N D (Q2Qc 0) Xs C = Some true).
-Proof.
-  split; [exact cov_seen_dense_b_exact|]. split; [exact cov_seen_randomized_b_exact|].
-  split; [exact eig_contract_tol_b_exact|]. split; [exact uncorrelated_tol_b_exact|].
-  exact model_cov_passes.
-Qed.
+Proof. exact decisions_sound. Qed.
 Print Assumptions C06_decisions_sound.
 
 Example C06_decisions_nonvacuous :
